@@ -212,7 +212,13 @@ def check(ctx):
         'NumpyTensorSpace forward (a, x1, b, x2, out) in unchanged roles; '
         'LinearSpace.lincomb/multiply/divide check membership before '
         'delegating.  R4b: power-space broadcasting applies the same-named '
-        'dunder to every part.',
+        'dunder to every part.  R1L (memory-layout tier): _lincomb_impl '
+        'is evaluated on arrays with real NumPy layouts (C / F contiguous, '
+        'strided views) and symbolic entries in every size regime (the '
+        'thresholds are moved, the arrays stay small), aliasing pattern and '
+        'scalar class, with BLAS axpy / scal / copy acting in place on the '
+        'array objects they are handed: out must hold a*x1 + b*x2 and the '
+        'operands must be unchanged.',
         ['CPython ast', 'BLAS level-1 semantics: scal(a,x): x*=a; '
          'axpy(x,y,n,a): y+=a*x; copy(x,y): y=x', 'NumPy in-place '
          'arithmetic is element-wise', 'ravel() of contiguous data is a '
